@@ -250,6 +250,19 @@ def write_evidence(pid, tier, seed, cov, assumptions, wall, violations):
     os.replace(tmp, d / f"{pid}.json")
 
 
+def repo_state():
+    """HEAD and locally modified files of the repository under test (informational)."""
+    import subprocess
+    try:
+        head = subprocess.run(["git", "-C", str(REPO), "rev-parse", "--short", "HEAD"],
+                              capture_output=True, text=True, timeout=20).stdout.strip()
+        dirty = subprocess.run(["git", "-C", str(REPO), "status", "--porcelain"],
+                               capture_output=True, text=True, timeout=20).stdout.split("\n")
+        return {"head": head, "modified": [d.strip() for d in dirty if d.strip()][:20]}
+    except Exception as e:
+        return {"error": repr(e)}
+
+
 def run_check(check, tier, seed):
     """Returns exit code."""
     t0 = time.time()
@@ -438,6 +451,7 @@ def run_check(check, tier, seed):
         "search_cases": searched,
         "internal_errors": len(internal),
         "repo": str(REPO),
+        "repo_state": repo_state(),
     }
     if "leanchecker_ok" in a:
         cov["leanchecker_ok"] = a["leanchecker_ok"]
